@@ -46,7 +46,11 @@ fn keyword_snippet(rng: &mut Rng) -> (String, String, Vec<(&'static str, &'stati
     let m = pick(2);
     // names that only become reserved words after a backend's case conversion (`in_` → `in`)
     let u: Vec<String> = pick(2).iter().map(|k| format!("{k}_")).collect();
-    let lead = format!("_{}", pick(1)[0]);
+    // (not the same word twice: `in_` and `_in` both become `in`, recorded finding F31, probed separately)
+    let lead = loop {
+        let k = pick(1)[0];
+        if !u.iter().any(|x| x.trim_end_matches('_') == k) { break format!("_{k}"); }
+    };
     let tag = format!("kw:{}+{}+{}", f.join(","), p.join(","), m.join(","));
     let union_safe = |s: &str| if s == "union" || s == "auto" || s == "default" { format!("r#{s}") } else { s.to_string() };
     let _ = union_safe;
@@ -390,6 +394,22 @@ pub fn main(args: &[String]) {
         util::write_files(&dir, &o.files);
         rust_srcs.push((case.clone(), src.clone()));
         units.push(Unit { kw, case, target: target.into(), src, files: o.files, dir });
+    }
+    // F31 (recorded): two parameters whose names coincide after the JS backend's lower-camel-casing
+    {
+        let src = "#[diplomat::bridge]\nmod ffi {\n    #[diplomat::opaque]\n    pub struct XtDup;\n    impl XtDup {\n        pub fn f(&self, in_: u8, _in: u8) -> u8 { unimplemented!() }\n        pub fn g(&self, start_at: u8, startAt: u8) -> u8 { unimplemented!() }\n    }\n}\n";
+        let o = tool::run_backend(src, "js");
+        if o.ok() {
+            let dir = work.join("probe-dup");
+            std::fs::create_dir_all(&dir).unwrap();
+            util::write_files(&dir, &o.files);
+            rep.oracle_runs += 1;
+            let (ok, _o, e) = util::run(std::process::Command::new("node").args(["--check", "XtDup.mjs"]).current_dir(&dir));
+            rep.count(if ok { "probe:dup-params:parses" } else { "probe:dup-params:broken" });
+            if !ok {
+                rep.oracle_fail("(c09 js probe parameters-colliding-after-camel-casing)", "a JS module does not parse", json!({"file": "XtDup.mjs", "diagnostics": e.lines().filter(|l| l.contains("Error")).take(2).collect::<Vec<_>>(), "source": src}));
+            }
+        }
     }
     // includes / imports
     for u in &units {
